@@ -55,6 +55,7 @@ def okS : X.Stmt → Bool
   | .seq ss => okSL ss
   | .assign _ e => pureE e
   | .syscall id args => decide (id < 3) && args.all pureE
+  | .assignSub _ i e => pureE i && pureE e
   | _ => false
 def okSL : List X.Stmt → Bool
   | [] => true
@@ -184,6 +185,110 @@ theorem exec_assignTail (K : PCtx) (exitJ : Nat) (wf : K.WFS exitJ) (n : String)
     exact ⟨mem.read 1, Steps.step _ _ _ _ _ _ s1 (Steps.one s2)⟩
 
 /-! ### Outcomes -/
+
+/-! ### Assignment to an array element -/
+
+theorem arrSet_glob (σ σ' : X.St) (id : Nat) (iv w : Word) (h : X.arrSet σ (.glob id) iv w = .ok σ') :
+    ∃ cells, σ.arrays[id]? = some cells ∧ 0 ≤ iv.toInt ∧ iv.toInt < cells.size ∧
+      σ' = { σ with arrays := σ.arrays.setIfInBounds id (cells.setIfInBounds iv.toInt.toNat (some w)) } := by
+  unfold X.arrSet at h
+  simp only at h
+  cases hc : σ.arrays[id]? with
+  | none => rw [hc] at h; simp at h
+  | some cells =>
+    rw [hc] at h
+    simp only at h
+    split at h
+    · rename_i hb
+      simp only [Except.ok.injEq] at h
+      exact ⟨cells, rfl, hb.1, hb.2, h.symm⟩
+    · simp at h
+
+theorem cell_lt {cells : Array (Option Word)} {idx : Nat} {w : Word} (h : cells[idx]? = some (some w)) : idx < cells.size := by
+  by_cases hlt : idx < cells.size
+  · exact hlt
+  · rw [Array.getElem?_eq_none (by omega)] at h; simp at h
+
+/-- Storing the assigned value into the element's word re-establishes the representation. -/
+theorem Rep.assignSub {K : PCtx} (wf : K.WF) {σ : X.St} {mem : Mem} {id : Nat} {iv w : Word}
+    {cells : Array (Option Word)} (hr : Rep K σ mem) (hc : σ.arrays[id]? = some cells) (h0 : 0 ≤ iv.toInt)
+    (h1 : iv.toInt < cells.size) :
+    Rep K { σ with arrays := σ.arrays.setIfInBounds id (cells.setIfInBounds iv.toInt.toNat (some w)) }
+      (mem.write (K.abase id + iv.toInt.toNat) w) := by
+  obtain ⟨hsz, hcv⟩ := hr.acells id cells hc
+  have hidx : iv.toInt.toNat < K.asize id := by omega
+  have hz : K.asize id ≠ 0 := by omega
+  obtain ⟨hhi, hmw⟩ := wf.arr_hi id hz
+  have hin : K.inArr (K.abase id + iv.toInt.toNat) := ⟨id, Nat.le_add_right _ _, by omega⟩
+  have hsp := wf.sp_ge
+  have hother : ∀ a, ¬ K.inArr a → (mem.write (K.abase id + iv.toInt.toNat) w).read a = mem.read a := by
+    intro a hna
+    rw [Mem.read_write_other]
+    intro e
+    exact hna (e ▸ hin)
+  have hlow : ∀ a, a ≤ K.sp + K.S → (mem.write (K.abase id + iv.toInt.toNat) w).read a = mem.read a :=
+    fun a ha => hother a (wf.not_inArr a ha)
+  exact {
+    sp := by rw [hlow 1 (by omega)]; exact hr.sp
+    vals := hr.vals
+    vars := by
+      intro n w' hn hrd
+      obtain ⟨a, hloc, hlt, hv⟩ := hr.vars n w' hn hrd
+      exact ⟨a, hloc, hlt, by rw [hother a (wf.loc_na n a hloc)]; exact hv⟩
+    consts := by
+      intro v l j k hm hd
+      obtain ⟨j', k', hd', _, hlt⟩ := wf.const_lbl v l hm
+      have hj : j = j' := by
+        have e1 := labelIdx_of_nodup _ _ _ _ wf.nodup hd
+        have e2 := labelIdx_of_nodup _ _ _ _ wf.nodup hd'
+        rw [e1] at e2; simpa using e2
+      subst hj
+      rw [hlow _ (by omega)]
+      exact hr.consts v l j k hm hd
+    locs := hr.locs
+    above := by
+      intro a ha hna
+      rw [hother a hna]
+      exact hr.above a ha hna
+    gvis := hr.gvis
+    depth := hr.depth
+    aptr := by
+      intro n r hrd
+      obtain ⟨id', a, hid, hloc, hlt, hv⟩ := hr.aptr n r hrd
+      exact ⟨id', a, hid, hloc, hlt, by rw [hother a (wf.loc_na n a hloc)]; exact hv⟩
+    acells := by
+      intro id' cells' hc'
+      have hc'' : (σ.arrays.setIfInBounds id (cells.setIfInBounds iv.toInt.toNat (some w)))[id']? = some cells' := hc'
+      rw [Array.getElem?_setIfInBounds] at hc''
+      by_cases hid : id = id'
+      · subst hid
+        rw [if_pos rfl] at hc''
+        have hlt : id < σ.arrays.size := by
+          by_cases hlt : id < σ.arrays.size
+          · exact hlt
+          · rw [Array.getElem?_eq_none (by omega)] at hc; simp at hc
+        rw [if_pos hlt] at hc''
+        simp only [Option.some.injEq] at hc''
+        subst hc''
+        refine ⟨by rw [Array.size_setIfInBounds]; exact hsz, fun idx w' hi => ?_⟩
+        rw [Array.getElem?_setIfInBounds] at hi
+        by_cases hix : iv.toInt.toNat = idx
+        · subst hix
+          rw [if_pos rfl, if_pos (by omega)] at hi
+          simp only [Option.some.injEq] at hi
+          subst hi
+          exact Mem.read_write_same _ _ _ (by omega)
+        · rw [if_neg hix] at hi
+          have := cell_lt hi
+          rw [Mem.read_write_other _ _ _ _ (by omega)]
+          exact hcv idx w' hi
+      · rw [if_neg hid] at hc''
+        obtain ⟨hsz', hcv'⟩ := hr.acells id' cells' hc''
+        refine ⟨hsz', fun idx w' hi => ?_⟩
+        have hlt := cell_lt hi
+        have hd := wf.arr_disj id id' hid hz (by omega)
+        rw [Mem.read_write_other _ _ _ _ (by omega)]
+        exact hcv' idx w' hi }
 
 /-- What the machine does for a statement whose execution has the result `r`: runs to `jEnd`
     (normal completion), to the procedure's exit label with the value in areg (`return`), or to the
